@@ -156,13 +156,16 @@ def coq_list(xs):
     return "[" + "; ".join("(%d)%%Z" % x for x in xs) + "]"
 
 
-def l2_phase(ctx, exe, rng, nmods, crate="c06l2"):
-    """Compiled behaviour vs the Coq reference interpreter. Returns (evaluations, diffs, sample)."""
+def l2_phase(ctx, exe, rng, nmods, crate="c06l2", extra_defs=()):
+    """Compiled behaviour vs the Coq reference interpreter. Returns (evaluations, diffs, sample).
+    extra_defs: definitions to compile in addition to (before) the nmods generated ones."""
     cases, defs = [], {}
     i = 0
+    pending = list(extra_defs)
+    nmods += len(pending)
     while len(cases) < nmods and i < nmods * 4:
         i += 1
-        d = gen_def(rng, l2_safe=True)
+        d = pending.pop(0) if pending else gen_def(rng, l2_safe=True)
         cid = f"m{len(cases)}"
         defs[cid] = d
         cases.append({"id": cid, "syntax": rng.choice(["dsl", "json"]), "text": None, "name": "Dev", "want": ["mir", "facts", "pretty"]})
@@ -195,7 +198,9 @@ def l2_phase(ctx, exe, rng, nmods, crate="c06l2"):
                 for k, g in enumerate(fs["getters"]):
                     conv = g["conv"]
                     if conv == "none":
-                        expr = f"fs.{g['name']}() as " + ("u128" if g["carrier"].startswith("u") else "i128")
+                        # (the carrier is unknown when the getter is not the one ops call the emitter is known to write —
+                        #  reported by the L1 comparison; its BEHAVIOUR is still compared here, typed by what it returns)
+                        expr = f"fs.{g['name']}() as " + ("u128" if str(g.get("carrier") or g.get("ret") or "u").startswith("u") else "i128")
                     elif conv == "bool":
                         expr = f"fs.{g['name']}() as i128"
                     elif conv == "into":
